@@ -19,7 +19,7 @@ def run(ctx):
     plain, asan = exes["h_c19.plain"], exes["h_c19.asan"]
     ctx.fan(plain, "mut", 400 if th else 16, chunk=1, timeout=900)
     ctx.fan(plain, "tiny", 33, chunk=1, timeout=300)
-    ctx.fan(plain, "random", 6000 if th else 100, timeout=120)
+    ctx.fan(plain, "random", 6000 if th else 100, timeout=120, closed_stdin_every=3)
     ctx.fan(asan, "mut", 24 if th else 4, chunk=1, timeout=900, prefix="asan.")
     ctx.fan(asan, "tiny", 33, chunk=3, timeout=300, prefix="asan.")
     s = ctx.stats
